@@ -23,7 +23,7 @@ type gen struct {
 }
 
 func (g *gen) pick(l ...string) string { return l[g.r.Intn(len(l))] }
-func (g *gen) chance(pct int) bool      { return g.r.Intn(100) < pct }
+func (g *gen) chance(pct int) bool     { return g.r.Intn(100) < pct }
 func (g *gen) bytesN(n int) []byte {
 	b := make([]byte, n)
 	g.r.Read(b)
